@@ -435,15 +435,20 @@ func (m *Machine) conv(tDst, tSrc types.Type, x Value) Value {
 				}
 				return mkStr(b)
 			}
-			var out []byte
+			var out []*sym.Term
 			for _, e := range sl {
 				r := m.term(e)
 				if !r.IsConst() {
-					m.path.abort("unsupported", "string([]rune) with symbolic rune")
+					// forks on the UTF-8 length class of the symbolic rune
+					st := m.encodeRuneSym(c.Resize(r, 64, true)).(Str)
+					out = append(out, m.strBytes(st)...)
+					continue
 				}
-				out = utf8.AppendRune(out, rune(r.Int64()))
+				for _, b := range utf8.AppendRune(nil, rune(r.Int64())) {
+					out = append(out, c.Const(8, uint64(b)))
+				}
 			}
-			return Str{S: string(out)}
+			return mkStr(out)
 		}
 		return x
 	case *types.Basic:
